@@ -256,6 +256,16 @@ class PathCtx:
         self.solver.push()
         self.solver.add(z3.Not(cond))
         r = self.solver.check()
+        if r == z3.unknown:
+            # the in-path budget is wall-clock: on a busy machine a query that takes 0.3 s alone can run out of it, and
+            # a lost entailment (e.g. the congruence of two FFT applications) would later look like a refutation.
+            # One retry with ten times the budget before giving the entailment up.
+            self.solver.set("timeout", self.BRANCH_TIMEOUT_MS * 10)
+            try:
+                r = self.solver.check()
+            finally:
+                self.solver.set("timeout", self.BRANCH_TIMEOUT_MS)
+            self.retried_unknown = getattr(self, "retried_unknown", 0) + 1
         self.solver.pop()
         return r == z3.unsat
 
